@@ -419,14 +419,19 @@ Proof.
   rewrite Harr. cbn [obind]. rewrite Hr. reflexivity.
 Qed.
 
-Definition const_type (c : cell) : ctype :=
+(* the type of the column a constant instruction makes (Model/Ops.v const_type, made total: there is no enum constant) *)
+Definition const_ctype (c : cell) : ctype :=
   match c with CInt _ => TInt | CFloat _ => TFloat | CBool _ => TBool | _ => TString end.
+
+Lemma const_type_ctype c : (forall s, c <> CEnum s) ->
+  const_type c = Some (const_ctype c) /\ const_ctype c <> TEnum /\ cell_type_ok (const_ctype c) c = true.
+Proof. intro Hc. destruct c as [z|b|b|s|s]; simpl; try (exfalso; apply (Hc s); reflexivity); repeat split; discriminate. Qed.
 
 Lemma idx_repeat {A} (x : A) n q : q < n -> idx (repeat x n) q = Ok x.
 Proof. intro H. unfold idx. rewrite nth_error_repeat by exact H. reflexivity. Qed.
 
 Lemma const_col_spec c n : (forall s, c <> CEnum s) ->
-  exists r, const_col c n = Ok r /\ col_type r = const_type c /\ col_len r = n
+  exists r, const_col c n = Ok r /\ col_type r = const_ctype c /\ col_len r = n
             /\ forall q, q < n -> cell_at r q = Ok c.
 Proof.
   intro Hc. destruct c as [z|b|b|s|s]; simpl; try (exfalso; apply (Hc s); reflexivity);
@@ -434,15 +439,85 @@ Proof.
     intros q Hq; rewrite idx_repeat by exact Hq; reflexivity.
 Qed.
 
-(* a constant: EVERY physical position holds it (also the positions outside the index) *)
-Theorem apply0_const_spec f c dst :
-  ferr f = false -> (forall s, c <> CEnum s) ->
+(* the array of a constant written through an index (which may list a position more than once) *)
+Lemma scatter_const_in c : forall index base arr,
+  scatter base index (repeat c (length index)) = Ok arr -> forall q, In q index -> nth_error arr q = Some c.
+Proof.
+  induction index as [|p index IH]; intros base arr H q Hq; [destruct Hq|].
+  simpl in H. destruct (p <? length base) eqn:E; [|discriminate]. apply Nat.ltb_lt in E.
+  destruct (in_dec Nat.eq_dec q index) as [Hi|Hni]; [apply (IH _ _ H q Hi)|].
+  destruct Hq as [->|Hq]; [|contradiction].
+  rewrite (scatter_outside _ _ _ _ q H Hni). apply nth_error_set_nth_eq. exact E.
+Qed.
+
+Lemma scatter_const_col t n index c :
+  t <> TEnum -> Forall (fun p => p < n) index -> cell_type_ok t c = true ->
+  exists arr r, scatter (repeat (zero_cell t) n) index (repeat c (length index)) = Ok arr /\ col_of_cells t arr = Ok r
+    /\ col_type r = t /\ col_len r = n
+    /\ (forall q, In q index -> cell_at r q = Ok c)
+    /\ (forall q, q < n -> ~ In q index -> cell_at r q = Ok (zero_cell t)).
+Proof.
+  intros Ht Hin Hc.
+  assert (Hbase : Forall (fun p => p < length (repeat (zero_cell t) n)) index) by (rewrite repeat_length; exact Hin).
+  destruct (scatter_ok index (repeat (zero_cell t) n) (repeat c (length index)) (repeat_length _ _) Hbase) as [arr [Harr Hal]].
+  assert (Harr_ok : Forall (fun y => cell_type_ok t y = true) arr).
+  { eapply scatter_Forall; [| |exact Harr]; apply repeat_Forall; [apply zero_cell_ok; exact Ht|exact Hc]. }
+  destruct (col_of_cells_spec t arr Ht Harr_ok) as [r [Hr [Hrt [Hrl Hcell]]]].
+  exists arr, r. split; [exact Harr|]. split; [exact Hr|]. split; [exact Hrt|].
+  split; [rewrite Hrl, Hal, repeat_length; reflexivity|]. split.
+  - intros q Hq. rewrite Hcell, (scatter_const_in c _ _ _ Harr q Hq). reflexivity.
+  - intros q Hq Hnotin. rewrite Hcell, (scatter_outside _ _ _ _ q Harr Hnotin).
+    rewrite (nth_error_repeat (zero_cell t)) by exact Hq. reflexivity.
+Qed.
+
+(* a duplicate-free index over n positions that has n entries lists every position *)
+Lemma full_index_covers n (index : list nat) :
+  NoDup index -> Forall (fun p => p < n) index -> length index = n -> forall q, q < n -> In q index.
+Proof.
+  intros Hnd Hin Hlen q Hq.
+  apply (NoDup_length_incl Hnd (l' := seq 0 n)).
+  - rewrite seq_length. lia.
+  - intros p Hp. rewrite Forall_forall in Hin. apply in_seq. specialize (Hin p Hp). lia.
+  - apply in_seq. lia.
+Qed.
+
+(* a constant on a frame whose index covers all rows of its columns (len(index) = column length; no premise on
+   the index entries): a constant column, EVERY physical position holds the constant *)
+Theorem apply0_const_full_spec f c dst :
+  ferr f = false -> (forall s, c <> CEnum s) -> length (ix f) = phys_len f ->
   exists r, apply0 f (F0Const c) dst = Ok (set_column f dst r)
-    /\ col_type r = const_type c /\ col_len r = phys_len f
+    /\ col_type r = const_ctype c /\ col_len r = phys_len f
     /\ (forall q, q < phys_len f -> cell_at r q = Ok c).
 Proof.
-  intros Hf Hc. destruct (const_col_spec c (phys_len f) Hc) as [r [Hr [Ht [Hl Hq]]]].
-  exists r. split; [|auto]. unfold apply0. rewrite Hf, Hr. reflexivity.
+  intros Hf Hc Hlen. destruct (const_col_spec c (phys_len f) Hc) as [r [Hr [Ht [Hl Hq]]]].
+  exists r. split; [|auto]. unfold apply0. rewrite Hf, Hlen, Nat.eqb_refl, Hr. reflexivity.
+Qed.
+
+(* a constant, in general (index entries are positions of the columns): the rows of the frame hold the constant;
+   with len(index) = column length every physical position holds it; otherwise (a filtered or sliced frame, the
+   sub-frame of FilteredApply) every position that is not a row of the frame holds the ZERO VALUE of the type,
+   exactly as for func() T *)
+Theorem apply0_const_spec f c dst :
+  ferr f = false -> (forall s, c <> CEnum s) -> Forall (fun p => p < phys_len f) (ix f) ->
+  exists r, apply0 f (F0Const c) dst = Ok (set_column f dst r)
+    /\ col_type r = const_ctype c /\ col_len r = phys_len f
+    /\ (forall q, In q (ix f) -> cell_at r q = Ok c)
+    /\ (length (ix f) = phys_len f -> forall q, q < phys_len f -> cell_at r q = Ok c)
+    /\ (length (ix f) <> phys_len f ->
+        forall q, q < phys_len f -> ~ In q (ix f) -> cell_at r q = Ok (zero_cell (const_ctype c))).
+Proof.
+  intros Hf Hc Hin. destruct (Nat.eq_dec (length (ix f)) (phys_len f)) as [Hlen|Hlen].
+  - destruct (apply0_const_full_spec f c dst Hf Hc Hlen) as [r [Hr [Ht [Hl Hq]]]].
+    exists r. split; [exact Hr|]. split; [exact Ht|]. split; [exact Hl|]. split; [|split].
+    + intros q Hi. apply Hq. rewrite Forall_forall in Hin. apply Hin. exact Hi.
+    + intros _. exact Hq.
+    + intro Hne. congruence.
+  - destruct (const_type_ctype c Hc) as [Hct [Hte Hok]].
+    destruct (scatter_const_col (const_ctype c) (phys_len f) (ix f) c Hte Hin Hok)
+      as [arr [r [Harr [Hr [Hrt [Hrl [Hread Hout]]]]]]].
+    exists r. split.
+    + unfold apply0. rewrite Hf. apply Nat.eqb_neq in Hlen. rewrite Hlen, Hct, Harr. cbn [obind]. rewrite Hr. reflexivity.
+    + split; [exact Hrt|]. split; [exact Hrl|]. split; [exact Hread|]. split; [intro; congruence|]. intros _. exact Hout.
 Qed.
 
 (* ------------------------------------------------------------------ one instruction against the table-level specification *)
@@ -525,15 +600,15 @@ Qed.
 (* constant *)
 Lemma instr_const f t c dst :
   ferr f = false -> fr_ok f -> abs f = Ok t -> check_name dst = true -> afn_wf (F0Const c) = true ->
-  instr_result f (tset_col t dst (const_type c) (map (fun _ => c) (trows t))) (apply0 f (F0Const c) dst).
+  instr_result f (tset_col t dst (const_ctype c) (map (fun _ => c) (trows t))) (apply0 f (F0Const c) dst).
 Proof.
   intros Hf [Hwf Hnd] Ht Hn Hfn.
   assert (Hc : forall s, c <> CEnum s) by (intros s ->; discriminate).
-  destruct (apply0_const_spec f c dst Hf Hc) as [r [Hr [Hrt [Hrlen Hq]]]].
-  pose proof Hwf as Hwf'. apply wf_frame_iff in Hwf' as [_ Hi]. rewrite Forall_forall in Hi.
+  pose proof Hwf as Hwf'. apply wf_frame_iff in Hwf' as [_ Hi].
+  destruct (apply0_const_spec f c dst Hf Hc Hi) as [r [Hr [Hrt [Hrlen [Hq _]]]]].
   assert (Hcells : omap (cell_at r) (ix f) = Ok (map (fun _ => c) (trows t))).
   { destruct (abs_rows f t Ht) as [Hrows _].
-    rewrite (omap_const_ok c (cell_at r) (ix f)) by (intros p Hp; apply Hq; apply Hi; exact Hp).
+    rewrite (omap_const_ok c (cell_at r) (ix f)) by (intros p Hp; apply Hq; exact Hp).
     f_equal. clear - Hrows. revert Hrows. generalize (trows t). induction (ix f) as [|p l IH]; intros rows H.
     - inversion H. reflexivity.
     - apply omap_cons_inv in H as [y [ys [_ [Hys ->]]]]. simpl. f_equal. apply IH. exact Hys. }
@@ -670,7 +745,14 @@ Proof.
       pose proof (col_of_cells_not_fail ty cells) as Hc.
       destruct (col_of_cells ty cells) as [c| |]; cbn [obind]; [|congruence|right; reflexivity].
       left. rewrite set_column_bad by exact Hn. reflexivity.
-    + destruct c; simpl; try (right; reflexivity); left; rewrite set_column_bad by exact Hn; reflexivity.
+    + destruct (Nat.eqb (length (ix f)) (phys_len f)).
+      * destruct c; simpl; try (right; reflexivity); left; rewrite set_column_bad by exact Hn; reflexivity.
+      * destruct (const_type c) as [ty|]; [|right; reflexivity].
+        pose proof (scatter_not_fail (ix f) (repeat (zero_cell ty) (phys_len f)) (repeat c (length (ix f)))) as Hs.
+        destruct (scatter _ _ _) as [cells| |]; cbn [obind]; [|congruence|right; reflexivity].
+        pose proof (col_of_cells_not_fail ty cells) as Hcc.
+        destruct (col_of_cells ty cells) as [c'| |]; cbn [obind]; [|congruence|right; reflexivity].
+        left. rewrite set_column_bad by exact Hn. reflexivity.
     + left. unfold copy. rewrite Hf. destruct (lookup_col f src); [|reflexivity].
       rewrite bytes_eqb_sym, (Hself src eq_refl eq_refl). rewrite set_column_bad by exact Hn. reflexivity.
   - unfold apply1. rewrite Hf. destruct (lookup_col f s1) as [c|]; [|left; reflexivity].
@@ -915,8 +997,13 @@ Proof.
       destruct (scatter _ _ _) as [cells| |]; cbn [obind]; try discriminate.
       destruct (col_of_cells ty cells) as [c| |]; cbn [obind]; try discriminate.
       intro H; inversion H. right; right. eexists; reflexivity.
-    + destruct (const_col c (phys_len f)) as [r| |]; cbn [obind]; try discriminate.
-      intro H; inversion H. right; right. eexists; reflexivity.
+    + destruct (Nat.eqb (length (ix f)) (phys_len f)).
+      * destruct (const_col c (phys_len f)) as [r| |]; cbn [obind]; try discriminate.
+        intro H; inversion H. right; right. eexists; reflexivity.
+      * destruct (const_type c) as [ty|]; [|discriminate].
+        destruct (scatter _ _ _) as [cells| |]; cbn [obind]; try discriminate.
+        destruct (col_of_cells ty cells) as [r| |]; cbn [obind]; try discriminate.
+        intro H; inversion H. right; right. eexists; reflexivity.
     + intro H; inversion H. unfold copy. destruct (ferr f); [auto|]. destruct (lookup_col f src) as [c|]; [|auto].
       destruct (bytes_eqb dst src); [auto|]. right; right. eexists; reflexivity.
   - unfold apply1. destruct (ferr f); [intro H; inversion H; auto|].
@@ -968,9 +1055,10 @@ Qed.
 
 (* ------------------------------------------------------------------ FilteredApply: the rows that do not match *)
 
-(* the instructions that call a user function, with the function's result type *)
+(* the instructions that compute a new column — a user function is called, or a constant is given —, with the
+   type of that column *)
 Definition fun_instr (i : instr) : option ctype :=
-  if empty_name (isrc1 i) then match ifn i with F0Stream t _ => Some t | _ => None end
+  if empty_name (isrc1 i) then match ifn i with F0Stream t _ => Some t | F0Const c => Some (const_ctype c) | _ => None end
   else if empty_name (isrc2 i) then match ifn i with F1 _ tout _ => Some tout | _ => None end
   else match ifn i with F2 t _ => Some t | _ => None end.
 
@@ -1028,9 +1116,14 @@ Proof.
       split; [split; [exact H2|apply col_wf_nonenum; congruence]|].
       intros ty' Hty'. inversion Hty'; subst ty'. split; [exact H1|]. rewrite H2. exact H3.
     + assert (Hc : forall s, c <> CEnum s) by (intros s ->; discriminate).
-      destruct (const_col_spec c (phys_len f) Hc) as [r [Hr [Hrt [Hrl _]]]]. rewrite Hr in H. cbn [obind] in H.
-      inversion H; subst g. right. exists r. split; [reflexivity|]. split; [apply (Hname r eq_refl)|].
-      split; [split; [exact Hrl|apply col_wf_nonenum; rewrite Hrt; destruct c; simpl; congruence]|discriminate].
+      destruct (apply0_const_spec f c dst Hf Hc Hi) as [r [Hr [Hrt [Hrl [_ [_ Hout]]]]]].
+      assert (Ha : apply0 f (F0Const c) dst = Ok g) by (unfold apply0; rewrite Hf; exact H).
+      rewrite Hr in Ha. inversion Ha; subst g. right. exists r. split; [reflexivity|]. split; [apply (Hname r eq_refl)|].
+      split; [split; [exact Hrl|apply col_wf_nonenum; rewrite Hrt; destruct c; simpl; congruence]|].
+      intros ty' Hty'. inversion Hty'; subst ty'. split; [exact Hrt|]. rewrite Hrl. intros q Hq Hnotin.
+      destruct (Nat.eq_dec (length (ix f)) (phys_len f)) as [Hlen|Hlen].
+      * exfalso. apply Hnotin. apply (full_index_covers (phys_len f) (ix f) Hnd Hi Hlen q Hq).
+      * apply (Hout Hlen q Hq Hnotin).
     + inversion H; subst g. clear H. unfold copy in *. rewrite Hf in *.
       destruct (lookup_col f src) as [c|] eqn:El; [|discriminate].
       destruct (bytes_eqb dst src); [left; auto|].
